@@ -20,9 +20,18 @@ fn main() {
         }
         _ => {
             let mut out = Out::new(&outp);
-            out.ev("Header", json!({"be": qcore::num::BE, "registry": regname, "seed": seed, "tier": if thorough {"thorough"} else {"quick"}, "drv": cmd}));
+            let regime = if cmd == "replay" { "exact" } else { "rounded" };
+            out.ev("Header", json!({"be": qcore::num::BE, "registry": regname, "seed": seed, "tier": if thorough {"thorough"} else {"quick"}, "drv": cmd, "regime": regime}));
             match cmd.as_str() {
                 "units" => unit_events(&reg, &mut out),
+                "replay" => {
+                    let (done, skipped) = replay(&reg, &get("--in").expect("--in"), &mut out);
+                    eprintln!("replayed: {} skipped: {}", done, skipped);
+                    if skipped > 0 {
+                        out.finish();
+                        std::process::exit(3);
+                    }
+                }
                 "c01" => c01_convert(&reg, &cfg, &mut out),
                 "c02" => c02_cmp(&reg, &cfg, &mut out, false),
                 "c03" => c03_arith(&reg, &cfg, &mut out, false),
